@@ -37,6 +37,17 @@ Definition gcyc := fold_left (fun g nd => g_register_dependency g (fst nd) (snd 
   [(S_ "a", S_ "b"); (S_ "b", S_ "a"); ([], S_ "a"); ([], S_ "b")] g_empty.
 Example C19_ex_cycle : dependencies_of gcyc [] = None.
 Proof. vm_compute. reflexivity. Qed.
+(* ... in general: an order that is delivered contains no cycle, and a cycle among the dependencies the
+   target reaches (by one or more edges back to a node) makes dependencies_of deliver nothing — the
+   build is dropped (configure_build answers NoBuild), never emitted in some arbitrary order *)
+Theorem C19_order_has_no_cycle : forall g target res u,
+  dependencies_of g target = Some res -> In u res -> ~ reach1 g u u.
+Proof. exact order_has_no_cycle. Qed.
+Print Assumptions C19_order_has_no_cycle.
+Theorem C19_reachable_cycle_drops : forall g target u,
+  reach g target u -> reach1 g u u -> dependencies_of g target = None.
+Proof. exact reachable_cycle_drops. Qed.
+Print Assumptions C19_reachable_cycle_drops.
 
 (* --- downloads --- *)
 (* In the statements of every configured build: the modules are visited in the build order of the
